@@ -1,13 +1,13 @@
 package seats
 
 import (
-	"bytes"
 	"fmt"
 	"runtime"
-	"strconv"
 	"sync"
 	"sync/atomic"
 	"time"
+
+	"verif/harness/sim"
 )
 
 const (
@@ -41,16 +41,7 @@ type sched struct {
 	fault string
 }
 
-func curGoid() int64 {
-	var buf [64]byte
-	n := runtime.Stack(buf[:], false)
-	// "goroutine 123 ["
-	b := buf[:n]
-	b = b[len("goroutine "):]
-	i := bytes.IndexByte(b, ' ')
-	id, _ := strconv.ParseInt(string(b[:i]), 10, 64)
-	return id
-}
+func curGoid() int64 { return sim.GoID() }
 
 func (s *sched) lookup() *gor {
 	id := curGoid()
@@ -94,49 +85,7 @@ func (s *sched) spawn(id int, op opSpec, do func(opSpec) opResult) *gor {
 	return g
 }
 
-var lockReasons = [][]byte{[]byte("sync.Mutex.Lock"), []byte("sync.RWMutex.Lock"), []byte("sync.RWMutex.RLock")}
-
-// blockedOnLock reads the wait reason of the given goroutines from a full
-// stack dump. Only the three mutex wait reasons count; the generic
-// "semacquire" also shows up transiently around GC and must not.
-func blockedOnLock(ids map[int64]bool) map[int64]bool {
-	out := map[int64]bool{}
-	buf := make([]byte, 1<<16)
-	for {
-		n := runtime.Stack(buf, true)
-		if n < len(buf) {
-			buf = buf[:n]
-			break
-		}
-		buf = make([]byte, 2*len(buf))
-	}
-	for _, blk := range bytes.Split(buf, []byte("\n\n")) {
-		if !bytes.HasPrefix(blk, []byte("goroutine ")) {
-			continue
-		}
-		b := blk[len("goroutine "):]
-		i := bytes.IndexByte(b, ' ')
-		if i < 0 {
-			continue
-		}
-		id, err := strconv.ParseInt(string(b[:i]), 10, 64)
-		if err != nil || !ids[id] {
-			continue
-		}
-		j := bytes.IndexByte(b, '[')
-		k := bytes.IndexByte(b, ']')
-		if j < 0 || k < j {
-			continue
-		}
-		status := b[j+1 : k]
-		for _, r := range lockReasons {
-			if bytes.HasPrefix(status, r) {
-				out[id] = true
-			}
-		}
-	}
-	return out
-}
+func blockedOnLock(ids map[int64]bool) map[int64]bool { return sim.BlockedOnLock(ids) }
 
 // waitQuiet returns once every goroutine is parked, finished or blocked on
 // the mutex. Which of these a goroutine reaches is a function of program
